@@ -80,7 +80,7 @@ Theorem C06_yank_pop_previous_slot :
   kr_last k = KAYank size -> kr_slots k <> [] -> kr_index k < length (kr_slots k) ->
   let idx := if Nat.eqb (kr_index k) 0 then length (kr_slots k) - 1 else kr_index k - 1 in
   exists s, nth_error (kr_slots k) idx = Some s
-            /\ kr_yank_pop k = (mkKr (kr_slots k) (kr_cap k) idx (KAYank (blen s)) (kr_killing k), Some (size, s)).
+            /\ kr_yank_pop k = (mkKr (kr_slots k) (kr_cap k) idx (KAYank (blen s)) (kr_killing k) (kr_newest k), Some (size, s)).
 Proof. exact kr_yank_pop_spec. Qed.
 Print Assumptions C06_yank_pop_previous_slot.
 
@@ -90,6 +90,17 @@ Proof. exact kr_yank_pop_not_after_yank. Qed.
 Print Assumptions C06_yank_pop_only_after_yank.
 
 (* non-vacuity: "one two", kill word backwards twice (C-w C-w), yank: the line is back *)
+(* NO KILL IS LOST TO A YANK-POP: a kill that starts a new run goes into the slot after the MOST RECENT kill (the
+   oldest slot when the ring is full) wherever yank-pop has rotated the yank index to, and leaves every other slot as
+   it was (repair of finding K1) *)
+Theorem C06_kill_after_yank_pop_keeps_others :
+  forall (k : killring) (text : str) (m : kr_mode) (k' : killring),
+  kr_ok k -> kr_last k <> KAKill -> kr_kill k text m = Ok k' ->
+  kr_index k' = new_index k /\ kr_newest k' = new_index k
+  /\ forall j, j <> new_index k -> j < length (kr_slots k) -> nth_error (kr_slots k') j = nth_error (kr_slots k) j.
+Proof. exact kr_kill_new_others. Qed.
+Print Assumptions C06_kill_after_yank_pop_keeps_others.
+
 Example C06_example :
   let cfg := mk_config Emacs CTCircular true 80 false [] [] VKNone [] in
   let inp := mkIn [] [[Ch 111; Ch 110; Ch 101; Ch 32; Ch 116; Ch 119; Ch 111]; [Ch 23]; [Ch 23]; [Ch 25]; [Ch 13]]%N in
